@@ -8,10 +8,14 @@ definitions the theorems of Props/C12.lean are about (`Spec.Proj.reasons`, `aggR
 `sliceReasons`).  Besides, the property is stated directly on the Python outputs: every result is
 ⊑ the stored document, the number and order of results equal the unprojected query, `$slice`
 / `$elemMatch` fields hold the stated part, and the caller's projection object is unchanged after
-every call, successful or raising.
+every call, successful or raising.  Whenever a datetime is stored (and for a sample of the other
+cases) the same entry points are also asked through a `tz_aware=True` client (python only): each
+must give the naive client's answer with UTC attached - the projection is computed on the stored
+document, whichever client reads - and `find_one_and_*` must agree with `find` on that client.
 """
 import collections
 import copy
+import datetime
 import glob
 import json
 import os
@@ -31,10 +35,13 @@ import wire
 
 RULE = ('case = 1-3 stored documents (variants of one another: nested sub-documents, arrays of '
         'sub-documents, mixed arrays, missing paths), one filter, one projection (dict / list '
-        'form, _id toggling, dotted paths, $slice, $elemMatch, malformed stream) and one plain '
-        '$project specification; evaluated through find per document, find over the filter, '
-        'find_one, one of find_one_and_update/replace/delete, and aggregate on /repo and through '
-        'the Lean model; an evaluation = one (document, projection) pair on one entry point; '
+        'form, _id toggling, dotted paths, $slice, $elemMatch, malformed stream; one case in eight '
+        'is "dated": arrays of sub-documents / scalars carrying datetimes, $elemMatch conditions '
+        'on those dates by equality, range, $in/$nin/$ne, $slice next to date fields) and one '
+        'plain $project specification; evaluated through find per document, find over the filter, '
+        'find_one, one of find_one_and_update/replace/delete (BEFORE or AFTER), and aggregate on '
+        '/repo and through the Lean model, and - when a datetime is stored, plus a 15 % sample - '
+        'through a tz_aware=True client as well (python only); an evaluation = one (document, projection) pair on one entry point; '
         'non-trivial = the projection succeeds and its output differs from both the stored '
         'document and {_id}; distinct = by hash of the wire encoding of (document, projection)')
 
@@ -50,6 +57,10 @@ ASSUMPTIONS = [
     'find_one_and_* picks its target on the full document (fix: commit in /repo) and returns the '
     'projection of that document, empty or not',
     'sort / skip / limit are not combined with projection here (C11)',
+    'tz_aware=True clients are outside the model (the driver is not consulted): their answers are '
+    'judged against the naive client\'s answer with UTC attached to every datetime and against '
+    'find on the same client; the datetimes inside projection conditions are naive (an aware '
+    'datetime inside a projection is not normalised by the library: not generated)',
 ]
 
 # classes of deviation still excused (listed in known_findings.json with status "known"): none.
@@ -152,7 +163,10 @@ def gen_case(rng):
     oids = wire.Oids()
     g = gen.Gen(rng, oids)
     pg = gen_proj.ProjGen(g)
-    docs = variants(pg, pg.doc(0), rng.choice([1, 2, 2, 3]))
+    dated = rng.random() < 0.12
+    if dated:
+        pg.note('flavour:dated')
+    docs = variants(pg, pg.dated_doc(0) if dated else pg.doc(0), rng.choice([1, 2, 2, 3]))
     some = rng.choice(docs)
     x = rng.random()
     if x < 0.5:
@@ -161,15 +175,16 @@ def gen_case(rng):
         f = {'_id': rng.choice([0, 1, 2, {'$gt': 0}, {'$ne': 1}])}
     else:
         f = gen_filter.FilterGen(g, malformed=0.03, elem=False, regex=False).filter(some, depth=1)
-    p = pg.projection(some)
+    p = pg.dated_projection(some) if dated and rng.random() < 0.85 else pg.projection(some)
     if (isinstance(p, dict) and p and not any(isinstance(v, (dict, list)) for v in p.values())
             and rng.random() < 0.5):
         pa = copy.deepcopy(p)
     else:
         pa = pg.agg_projection(some)
     fam = rng.choice(['update', 'update_after', 'replace', 'replace_after', 'delete'])
+    # the tz_aware client is asked whenever a datetime is stored, and for a sample of the rest
     return {'docs': docs, 'filter': f, 'proj': p, 'aggproj': pa, 'fam': fam, 'oids': oids,
-            'kinds': pg.kinds}
+            'kinds': pg.kinds, 'tzprobe': rng.random() < 0.15}
 
 
 def render(c, **kw):
@@ -192,8 +207,8 @@ def case_from(e):
             'oids': oids, 'kinds': {}}
 
 
-def fresh(docs):
-    coll = mongomock.MongoClient().db.c
+def fresh(docs, tz_aware=False):
+    coll = (mongomock.MongoClient(tz_aware=True) if tz_aware else mongomock.MongoClient()).db.c
     for d in docs:
         coll.insert_one(copy.deepcopy(d))
     return coll
@@ -228,6 +243,76 @@ def same_object(a, b):
     if isinstance(a, (list, tuple)):
         return len(a) == len(b) and all(same_object(x, y) for x, y in zip(a, b))
     return a == b
+
+
+def has_date(v):
+    if isinstance(v, dict):
+        return any(has_date(x) for x in v.values())
+    if isinstance(v, (list, tuple)):
+        return any(has_date(x) for x in v)
+    return isinstance(v, datetime.datetime)
+
+
+def made_aware(v):
+    """what a tz_aware client shows of a stored value: the same value, every naive (UTC) datetime
+    carrying UTC"""
+    if isinstance(v, dict):
+        return {k: made_aware(x) for k, x in v.items()}
+    if isinstance(v, (list, tuple)):
+        return [made_aware(x) for x in v]
+    if isinstance(v, datetime.datetime) and v.tzinfo is None:
+        return v.replace(tzinfo=wire.FixedOffset(0))
+    return v
+
+
+def find_and_modify(coll, fam, q, arg):
+    ret = ReturnDocument.AFTER if fam.endswith('_after') else ReturnDocument.BEFORE
+    if fam.startswith('update'):
+        return attempt(lambda: coll.find_one_and_update(q, {'$set': {'zz': 7}}, projection=arg,
+                                                        return_document=ret))
+    if fam.startswith('replace'):
+        return attempt(lambda: coll.find_one_and_replace(q, {'zz': 7, 'a': {'b': 1}},
+                                                         projection=arg, return_document=ret))
+    return attempt(lambda: coll.find_one_and_delete(q, projection=arg))
+
+
+def py_eval_tz(c):
+    """the same read entry points through a tz_aware client (python only: the model is the naive
+    client's; a tz_aware client shows the same projections, computed on the stored documents,
+    with UTC attached)"""
+    p, f, fam = c['proj'], c['filter'], c['fam']
+    coll = fresh(c['docs'], tz_aware=True)
+    t = {}
+
+    def arg_of(entry, v):
+        a = copy.deepcopy(v)
+        c['args'].append((entry + ' (tz_aware)', a, copy.deepcopy(v)))
+        return a
+    per = []
+    for d in c['stored']:
+        arg = arg_of('find', p)
+        r = attempt(lambda: list(coll.find({'_id': d['_id']}, arg)))
+        if not is_err(r):
+            r = r[0] if len(r) == 1 else '!wrongcount%d' % len(r)
+        per.append(r)
+    t['per'] = per
+    arg = arg_of('find-list', p)
+    t['found'] = attempt(lambda: list(coll.find(copy.deepcopy(f), arg)))
+    arg1 = arg_of('find_one', p)
+    t['one'] = attempt(lambda: coll.find_one(copy.deepcopy(f), arg1))
+    arg2 = arg_of('aggregate', c['aggproj'])
+    t['agg'] = attempt(lambda: list(coll.aggregate([{'$project': arg2}])))
+    coll2 = fresh(c['docs'], tz_aware=True)
+    q = {'_id': c['stored'][0]['_id']}
+    arg3 = arg_of('find_one_and_' + fam, p)
+    t['famres'] = find_and_modify(coll2, fam, q, arg3)
+    # what find shows, on this client, of the document find_one_and_* is to return
+    if fam.endswith('_after'):
+        arg4 = arg_of('find', p)
+        t['famfind'] = attempt(lambda: coll2.find_one(q, arg4))
+    else:
+        t['famfind'] = per[0]
+    c['tz'] = t
 
 
 def py_eval(c):
@@ -265,20 +350,15 @@ def py_eval(c):
     fam = c['fam']
     ret = ReturnDocument.AFTER if fam.endswith('_after') else ReturnDocument.BEFORE
     arg3 = arg_of('find_one_and_' + fam, p)
-    if fam.startswith('update'):
-        r = attempt(lambda: coll2.find_one_and_update(q, {'$set': {'zz': 7}}, projection=arg3,
-                                                      return_document=ret))
-    elif fam.startswith('replace'):
-        r = attempt(lambda: coll2.find_one_and_replace(q, {'zz': 7, 'a': {'b': 1}},
-                                                       projection=arg3, return_document=ret))
-    else:
-        r = attempt(lambda: coll2.find_one_and_delete(q, projection=arg3))
-    c['famres'] = r
+    c['famres'] = find_and_modify(coll2, fam, q, arg3)
     src = d0
     if ret is ReturnDocument.AFTER:
         src = coll2.find_one(q)
     c['famsrc'] = src
     c['fam_before'] = d0
+    c['tz'] = None
+    if c.get('tzprobe', True) or has_date(stored):
+        py_eval_tz(c)
 
 
 def case_lines(c):
@@ -398,6 +478,7 @@ class Judge(object):
             self.direct_doc(c, i, d, c['per'][i], out)
         self.direct_query(c)
         self.direct_args(c)
+        self.direct_tz(c)
         # list(find(filter, projection)) and find_one
         impl = parts(out['found'])[0]
         self.judge(c, 'find-list', w(c['found'], o), impl, False, True, [],
@@ -511,6 +592,44 @@ class Judge(object):
                                      'element', doc_index=i, field=f,
                                      python=wire.pretty(res.get(f, '<absent>'))),
                               rank=20 + len(repr(p)))
+
+    def direct_tz(self, c):
+        """a tz_aware client gets, on every read entry point, the projection of the STORED
+        document with UTC attached: (a) the naive client's answer made aware (error names
+        included), (b) find_one_and_* agrees with find on the same client"""
+        t = c.get('tz')
+        if not t:
+            return
+        ctx = self.ctx
+        o = c['oids']
+        fam = 'find_one_and_' + c['fam']
+        pairs = [('find', c['per'][i], t['per'][i], {'doc_index': i})
+                 for i in range(len(c['stored']))]
+        pairs += [('find-list', c['found'], t['found'], {}), ('find_one', c['one'], t['one'], {}),
+                  (fam, c['famres'], t['famres'], {}), ('aggregate', c['agg'], t['agg'], {})]
+        for entry, naive, aware, kw in pairs:
+            self.direct['tz:' + ('find_one_and_*' if '_and_' in entry else entry)] += 1
+            want = naive if is_err(naive) else made_aware(naive)
+            if w(aware, o) != w(want, o):
+                ctx.violation(render(
+                    c, kind='through a tz_aware client %s does not return the projection of the '
+                    'stored document (the answer of the naive client with UTC attached)' % entry,
+                    entry=entry, tz_aware=True,
+                    python=aware if is_err(aware) else wire.pretty(aware),
+                    expected=want if is_err(want) else wire.pretty(want), **kw),
+                    rank=12 + len(repr(c['proj'])) + len(repr(c['docs'])))
+                return
+        # (b) the document handed over by find_one_and_* is what find shows of it
+        got, ref = t['famres'], t['famfind']
+        self.direct['tz:fam=find'] += 1
+        if is_err(ref) or (is_err(got) and is_err(t['per'][0])):
+            return                  # the projection is refused on this document
+        if w(got, o) != w(ref, o):
+            ctx.violation(render(
+                c, kind='through a tz_aware client %s and find disagree on the projection of the '
+                'same document' % fam, entry=fam, tz_aware=True,
+                python=got if is_err(got) else wire.pretty(got), find=wire.pretty(ref)),
+                rank=12 + len(repr(c['proj'])) + len(repr(c['docs'])))
 
     def direct_args(self, c):
         """the projection object the caller passed is left exactly as it was, whether the call
@@ -679,7 +798,13 @@ def replay(ctx, path):
     o = c['oids']
     print(json.dumps({'per_doc': [w(x, o) for x in c['per']], 'found': w(c['found'], o),
                       'find_one': w(c['one'], o), 'aggregate': w(c['agg'], o),
-                      'fam': w(c['famres'], o), 'violations': len(ctx.violations)}, default=repr))
+                      'fam': w(c['famres'], o),
+                      'tz_aware': c['tz'] and {
+                          'per_doc': [w(x, o) for x in c['tz']['per']],
+                          'found': w(c['tz']['found'], o), 'find_one': w(c['tz']['one'], o),
+                          'aggregate': w(c['tz']['agg'], o), 'fam': w(c['tz']['famres'], o),
+                          'fam_find': w(c['tz']['famfind'], o)},
+                      'violations': len(ctx.violations)}, default=repr))
     if judge.internal:
         print('model and oracle differ inside D')
         return 2
